@@ -88,7 +88,7 @@ theorem op_pow (a : Rat) (k : Int) :
     by_cases hz : k < 0 ∧ a = 0
     · simp [hz, Agrees]
     · simp only [hz, if_false]
-      simp only [Number.powi]
+      simp only [Number.powi, List.any_nil, Bool.false_eq_true, if_false]
       split
       · simp [Agrees]
       · by_cases hk : k < 0
